@@ -39,6 +39,8 @@ class World:
         self.connects = 0
         self.refuse = False
         self.log = []
+        self.writer_hook = None          # callable(side, writer): lets a check add fault points to a new writer
+        self.last_delivered = {"I": None, "A": None}
 
     # ---- transport plumbing
     def _mk_writer(self, link, side):
@@ -63,6 +65,8 @@ class World:
                 link.q[other].append(EOF)
         w.on_close = on_close
         link.writer[side] = w
+        if self.writer_hook is not None:
+            self.writer_hook(side, w)
         return w
 
     async def open(self, host=None, port=None):
@@ -148,6 +152,7 @@ class World:
             if self.ep[side]._socket_reader is link.reader[side]:
                 link.reader[side].feed_eof()
         else:
+            self.last_delivered[side] = x
             link.reader[side].feed(x)
         await settle()
         return True
